@@ -32,6 +32,9 @@ func (e *Ext) Decoded() []Atom {
 			}
 			for _, a := range as {
 				a.Cond = a.Cond || cond
+				if a.At == nil {
+					a.At = in
+				}
 				out = append(out, *a)
 			}
 		}
@@ -191,7 +194,12 @@ func (e *Ext) srcOfValue(v ssa.Value, at ssa.Instruction, names map[ssa.Value]st
 		if x.Op == token.MUL {
 			if ia, ok := x.X.(*ssa.IndexAddr); ok {
 				if _, isField := e.FieldPath(ia); isField {
-					return nil
+					// a byte of a byte-slice FIELD used as an inner buffer is a decode; an element of
+					// any other field is a field-to-field copy
+					ld, isLd := ia.X.(*ssa.UnOp)
+					if !isLd || !isBufferLike(ld) {
+						return nil
+					}
 				}
 				root, off := e.rootBuf(ia.X, c)
 				off = off.Add(c.Lin(ia.Index))
@@ -505,8 +513,8 @@ func (e *Ext) dataDependent(b *ssa.BasicBlock) bool {
 		if other == x {
 			other = d.Succs[1]
 		}
-		if !reaches(x, other) {
-			continue // a guard: the other branch leaves and is never rejoined
+		if !rejoin(x, other) {
+			continue // a guard: the other branch leaves and the two never meet again
 		}
 		if isLoopCond(d) {
 			continue
@@ -577,7 +585,7 @@ func foldLoops(e *Ext, as []Atom) []Atom {
 	var body []Atom
 	flush := func() {
 		if cur != nil {
-			out = append(out, Atom{Kind: "repeat", Over: e.rangedOver(cur), Body: body, Pos: body[0].Pos})
+			out = append(out, Atom{Kind: "repeat", Over: e.rangedOver(cur), Body: body, Pos: body[0].Pos, Cond: body[0].Cond, At: body[0].At})
 		}
 		cur, body = nil, nil
 	}
@@ -641,4 +649,30 @@ func (e *Ext) viaHelper(call *ssa.Call, c *prove.Ctx, names map[ssa.Value]string
 		return &Atom{Kind: "bytes", Expr: "via " + n, Stream: e.streamName(root), Off: e.renderForm(off, names), OffForm: &off, Pos: call.Pos(), WidthStr: "via " + n}
 	}
 	return nil
+}
+
+// rejoin: is some block reachable from both a and b?
+func rejoin(a, b *ssa.BasicBlock) bool {
+	ra := reachSet(a)
+	for x := range reachSet(b) {
+		if ra[x] {
+			return true
+		}
+	}
+	return false
+}
+
+func reachSet(from *ssa.BasicBlock) map[*ssa.BasicBlock]bool {
+	seen := map[*ssa.BasicBlock]bool{}
+	work := []*ssa.BasicBlock{from}
+	for len(work) > 0 {
+		b := work[len(work)-1]
+		work = work[:len(work)-1]
+		if seen[b] {
+			continue
+		}
+		seen[b] = true
+		work = append(work, b.Succs...)
+	}
+	return seen
 }
